@@ -181,7 +181,60 @@ func (g *Gen) Do(op, args, key string) {
 			g.sample[j] = [2]string{op, args}
 		}
 	}
+	if !g.noSample && len(args) < 400 {
+		g.notePair(op, args)
+	}
 	g.Case(op, args, key, func() string { return ex(v.L) })
+}
+
+// splitTop splits the text of a list value "[a,b,[c,d]]" into its top-level elements.
+func splitTop(args string) []string {
+	if len(args) < 2 || args[0] != '[' {
+		return nil
+	}
+	var out []string
+	depth, start := 0, 1
+	for i := 1; i < len(args)-1; i++ {
+		switch args[i] {
+		case '[':
+			depth++
+		case ']':
+			depth--
+		case ',':
+			if depth == 0 {
+				out = append(out, args[start:i])
+				start = i + 1
+			}
+		}
+	}
+	if start < len(args)-1 {
+		out = append(out, args[start:len(args)-1])
+	}
+	return out
+}
+
+// notePair remembers, for every (operation, argument position k, text of argument k), the first two DIFFERENT cases of
+// this run that share that argument.  rerunPairs replays them back to back at the end of the run.
+func (g *Gen) notePair(op, args string) {
+	if g.pairs == nil {
+		g.pairs = map[string]*[2]string{}
+	}
+	for k, a := range splitTop(args) {
+		if len(a) > 48 {
+			continue
+		}
+		key := op + "\x00" + string(rune('0'+k)) + "\x00" + a
+		p, ok := g.pairs[key]
+		if !ok {
+			if len(g.pairs) < 60000 {
+				g.pairs[key] = &[2]string{args, ""}
+			}
+			continue
+		}
+		if p[1] == "" && p[0] != args {
+			p[1] = args
+		}
+	}
 }
 
 func replayLine(g *Gen, line string) error {
